@@ -16,6 +16,50 @@ import jsonschema
 from metador_core.plugins import schemas
 
 KINDS = ["h5", "ih5", "mf"]
+
+import hashlib as _hl
+
+
+def byte_pool() -> Dict[str, bytes]:
+    """C17 concretisation pool: boundary lengths, NUL-rich, high bytes, marker-like values."""
+    vals = [b"", b"\x00", b"a\x00\x00", b"\x00\x00\x00\x00", b"x", b"\x7f\x7f", b"\x7f\x00", b"\x00\x7f", b"\x1a",
+            b"\xff\xfe\xfd", bytes(range(256)), b"A" * 63, b"B" * 64, b"C" * 65, b"D" * 1023, b"E" * 1024, b"F" * 1025,
+            b"text with newline\n", "äöü ✓".encode(), b"\x89HDF\r\n\x1a\n", b"ih5_v01\n1024\n{}\x00"]
+    return {f"b{k}": v for k, v in enumerate(vals)}
+
+
+BYTES = byte_pool()
+BYTES_REV = {v: k for k, v in BYTES.items()}
+MARKER = b"\x7f"
+
+
+def file_observations(drv, km) -> List[Dict[str, Any]]:
+    """Every dataset holding raw bytes: the bytes read back (as pool token) and its core.file metadata."""
+    import h5py as _h5
+    import numpy as _np
+    out = []
+
+    def one(name, node):
+        if not h5lib.is_dataset(node):
+            return
+        v = node[()]
+        if isinstance(v, _h5.Empty):
+            b = b""
+        elif isinstance(v, _np.void):
+            b = v.tobytes()
+        else:
+            return
+        rec = {"p": [km.abs_key(s) for s in name.strip("/").split("/")], "tok": BYTES_REV.get(b, "?" + _hl.sha1(b).hexdigest()[:12]),
+               "hasmeta": False, "size": -1, "sha": "", "id": ""}
+        try:
+            m = node.meta.get("core.file")
+        except Exception:
+            m = None
+        if m is not None:
+            rec.update(hasmeta=True, size=int(m.contentSize), sha=str(m.sha256), id=str(m.id_))
+        out.append(rec)
+    drv.mc.visititems(one)
+    return sorted(out, key=lambda r: r["p"])
 RESERVED_SHAPES = ["metador_x", "/metador_x", "{g}/metador_x", "{g}/metador_meta_b/c", "/metador_container",
                    "/metador_container/links", "{g}/metador_meta_", "metador_meta_{k}", "{g}/x/metador_y/z"]
 VERSIONS = [[1, 0, 0], [1, 2, 0], [1, 5, 0], [2, 0, 0], [0, 2, 0], [0, 1, 0], [2, 1, 0]]
@@ -84,11 +128,12 @@ def observe(drv: CL.Driver, km, tk, rng, env_snap, originals, nq: int) -> Dict[s
                                  "is_instance": False, "eq": False, "contains": False, "listed": False,
                                  "err": type(ex).__name__ + ": " + str(ex)[:100]})
         rec["gets"] = gets
+        rec["files"] = file_observations(drv, km)
         rec["index_live"] = CL.index_snapshot(drv.mc)
         rec["index_fresh"] = CL.index_snapshot(CL.MetadorContainer(drv.raw))
     except Exception as ex:
         rec["obs_err"] = type(ex).__name__ + ": " + str(ex)[:300] + " | " + traceback.format_exc()[-400:]
-        for k in ("tree", "meta", "links", "schemas", "pkgs", "empties", "weird", "uview", "uvisit", "uextra", "queries", "gets"):
+        for k in ("tree", "meta", "links", "schemas", "pkgs", "empties", "weird", "uview", "uvisit", "uextra", "queries", "gets", "files"):
             rec.setdefault(k, [])
         rec.setdefault("index_live", "")
         rec.setdefault("index_fresh", "")
@@ -102,6 +147,13 @@ def apply(drv: CL.Driver, a: Dict[str, Any], km, tk, inst):
         mc.copy(km.path(a["p"]), km.path(a["q"]), without_meta=a["without_meta"])
     elif op in h5lib.USER_OPS:
         h5lib.apply_op(mc, a, km, tk.pool)
+    elif op == "pack":
+        from metador_core.packer.utils import pack_file
+        import tempfile
+        with tempfile.TemporaryDirectory(dir=str(drv.d)) as td:
+            f = Path(td) / "some file.bin"
+            f.write_bytes(MARKER if a["tok"] == "MARK" else BYTES[a["tok"]])
+            pack_file(mc, f, target=km.path(a["p"]).lstrip("/"))
     elif op == "attach":
         node = mc[km.path(a["p"])]
         key = a["schema"] if a["by"] == "name" else CL.CLASSES[a["cls"]]
@@ -229,8 +281,13 @@ def gen(rng: random.Random, h5rec: Dict[str, Any], stage: int, job: Dict[str, An
     r = 0.0 + (r / pa) * 0.30 if r < pa else (0.30 + (r - pa) / pd_ * 0.08 if r < pa + pd_ else
         (0.38 + (r - pa - pd_) / prs * 0.07 if r < pa + pd_ + prs else 0.45 + (r - pa - pd_ - prs) / max(1e-9, 1 - pa - pd_ - prs) * 0.55))
     a: Dict[str, Any] = {"op": "", "p": [], "q": [], "key": "", "v": "", "without_meta": False, "schema": "",
-                         "sver": [], "valid": True, "by": "", "cls": "", "as": "", "method": "", "rpath": "", "via": 0}
+                         "sver": [], "valid": True, "by": "", "cls": "", "as": "", "method": "", "rpath": "", "via": 0, "tok": ""}
     nodes = [n["p"] for n in tree]
+    if job.get("p_pack") and rng.random() < job["p_pack"]:
+        e = h5lib.gen_op(rng, tree, depth=3, weights={"set_dataset": 1, "create_group": 0, "delete": 0, "set_attr": 0,
+                                                      "del_attr": 0, "copy": 0, "move": 0, "require_group": 0})
+        a.update(op="pack", p=e["p"], tok=rng.choice(list(BYTES)))
+        return a
     if r < 0.30:
         a["op"] = "attach"
         a["p"] = rng.choice(nodes) if rng.random() < 0.92 else ["zz", "nope"]
@@ -287,6 +344,7 @@ def run_history(job: Dict[str, Any], emit, scratch: Path, tk: h5lib.Tokens, env:
         for d in drvs:
             d.create()
         snap = env.snapshot()
+        snap["pool"] = {k: [len(v), _hl.sha256(v).hexdigest()] for k, v in BYTES.items()}
         emit({"t": "end", "tid": tid, "ev": {"op": "init", "a": {"op": "init"}, "env": snap,
                                               "d": [dict(observe(d, km, tk, rng, snap, originals, 0), ok=True, exc="") for d in drvs]}})
         h5rec = None
@@ -314,7 +372,7 @@ def run_history(job: Dict[str, Any], emit, scratch: Path, tk: h5lib.Tokens, env:
                     if d is broken[0]:
                         o = {"drv": d.kind, "timeout": False, "obs_err": "boundary/reopen failed: " + broken[1],
                              "tree": [], "meta": [], "links": [], "schemas": [], "pkgs": [], "empties": [], "weird": [],
-                             "uview": [], "uvisit": [], "uextra": [], "queries": [], "gets": [], "index_live": "",
+                             "uview": [], "uvisit": [], "uextra": [], "queries": [], "gets": [], "files": [], "index_live": "",
                              "index_fresh": "", "ok": False, "exc": broken[1]}
                     else:
                         o = observe(d, km, tk, rng, snap, originals, 0)
@@ -367,6 +425,42 @@ def run_history(job: Dict[str, Any], emit, scratch: Path, tk: h5lib.Tokens, env:
                 out.append(o)
             prev = out[0]
             emit({"t": "end", "tid": tid, "ev": {"op": a["op"], "a": a, "env": snap, "d": out}})
+        if job.get("p_pack"):
+            base_a = {"op": "", "p": [], "q": [], "key": "", "v": "", "without_meta": False, "schema": "", "sver": [],
+                      "valid": True, "by": "", "cls": "", "as": "", "method": "", "rpath": "", "via": 0, "tok": ""}
+            # the deletion-marker value: must be refused loudly on IH5 (and leave no trace), is ordinary data on HDF5
+            a = {**base_a, "op": "pack", "p": ["zzmarker"], "tok": "MARK"}
+            out = []
+            for d in drvs:
+                ok, exc = True, ""
+                try:
+                    apply(d, a, km, tk, None)
+                except Exception as ex:
+                    ok, exc = False, type(ex).__name__ + ": " + str(ex)[:120]
+                if d.kind == "h5" and ok:
+                    del d.mc["zzmarker"]     # keep the drivers comparable afterwards
+                    ok, exc = False, "(stored on plain HDF5 as ordinary data, removed again by the harness)"
+                o = observe(d, km, tk, rng, snap, originals, 0)
+                o.update(ok=ok, exc=exc)
+                out.append(o)
+            emit({"t": "end", "tid": tid, "ev": {"op": "pack", "a": a, "env": snap, "d": out}})
+            # merge of the IH5 records: the merged container must hold the same bytes and file metadata
+            a = {**base_a, "op": "merged_view"}
+            out = []
+            for d in drvs:
+                if d.kind == "h5":
+                    d.reopen()
+                else:
+                    d.raw.commit_patch()
+                    tgt = d.d / "merged"
+                    d.raw.merge_files(tgt)
+                    d.raw.close()
+                    d.raw = type(d.raw)(tgt, "r+")
+                    d.mc = CL.MetadorContainer(d.raw)
+                o = observe(d, km, tk, rng, snap, originals, 0)
+                o.update(ok=True, exc="")
+                out.append(o)
+            emit({"t": "end", "tid": tid, "ev": {"op": "merged_view", "a": a, "env": snap, "d": out}})
         if job.get("catalogue"):
             # every path-taking method x every reserved path shape, and every raw attribute that the
             # interface does not define; each must be refused without any effect
